@@ -7,8 +7,13 @@ ASSUMPTIONS = [
     "named copy placed right after the original, exactly this instance moves between the reference sets, its outer pins keep their "
     "wires and name the copy's pins, the copy has the original's shape (full clone faithfulness is C07), everything else is "
     "untouched, the netlist is well-formed, and the call does not raise on net-local netlists",
-    "the breadth-first driver loop of uniquify() (each reachable non-leaf instance is visited once and made unique iff not unique) "
-    "is NOT executed symbolically; 'elaborated design unchanged' and idempotence are argued from (1)+(2) in DESIGN.md, not decided",
+    "(3) the whole uniquify(netlist) -- real driver loop, real _is_unique/_make_instance_unique/Definition.clone -- on containment-concrete "
+    "netlists whose instance->definition references are symbolic (the solver picks the sharing pattern: shared below the top, shared "
+    "with an instance outside the top hierarchy, unshared, leaf cells; fixture 'flat': two instances under the top + one outside, "
+    "fixture 'nested' (thorough): one more level): afterwards every reachable hierarchical instance is the only instance of its "
+    "definition, the elaborated tree and leaf types are the same, originals/outside untouched, new definitions sit in the original's "
+    "library under fresh names, the netlist is well-formed, a second run changes nothing, and no call raises; pins/ports are absent "
+    "from these fixtures (their handling is lemma (2)); queries use z3's sat.euf core (see bounds.solver)",
 ]
 
 
@@ -16,4 +21,7 @@ def jobs(tier):
     return [dict(name="C08/_is_unique", engine="E1/symheap", module="vf.e1.flatten_jobs", func="uniquify_jobs",
                  timeout=900, args=dict(tier=tier)),
             dict(name="C08/_make_instance_unique", engine="E1/symheap", module="vf.e1.flatten_jobs",
-                 func="make_unique_job", timeout=1500, args=dict(tier=tier))]
+                 func="make_unique_job", timeout=1500, args=dict(tier=tier))] + [
+            dict(name="C08/uniquify-driver{%s}" % fx, engine="E1/symheap", module="vf.e1.flatten_jobs",
+                 func="uniquify_driver_job", timeout=3000, args=dict(tier=tier, fixture=fx))
+            for fx in (("flat",) if tier == "quick" else ("flat", "nested"))]
